@@ -1,11 +1,13 @@
 // Verus unit `recognisers`: the validating skipper of src/parser.rs against the RFC 8259 grammar.
 use vstd::prelude::*;
+use vstd::string::StringSliceAdditionalSpecFns;
 verus! {
 //@include specs/prelude.rs
 //@include specs/json_number.rs
 //@include specs/json_grammar.rs
 //@include units/frag_parser.vt.rs
 //@include units/frag_space.vt.rs
+//@include units/frag_string.vt.rs
 
 } // verus!
 fn main() {}
